@@ -1,9 +1,9 @@
 #!/bin/bash
-# usage: tools/seedtest.sh Cxx <mutant dir with patch.diff demo.py> [pytest files...]
-# Confirms a seeded change in a scratch worktree of /repo (demo passes clean, fails patched, given tests pass patched)
-# and runs the property's check against the patched worktree. The worktree is removed afterwards.
+# usage: tools/negtest.sh Cxx <dir with patch.diff demo.py> [pytest files...]
+# A behaviour-preserving change (negative seed): demo must pass clean AND patched, the given tests must pass patched, and
+# the property's check must exit 0 against the patched scratch worktree.  The worktree is removed afterwards.
 P=$1; M=$2; shift 2; TESTS="$@"; export OMP_NUM_THREADS=2
-D=$(mktemp -d /tmp/seedwt.XXXXXX); rmdir $D
+D=$(mktemp -d /tmp/negwt.XXXXXX); rmdir $D
 git -C /repo worktree add -q $D HEAD || exit 2
 cd $D
 /venv/bin/python $M/demo.py >/dev/null 2>&1; CLEAN=$?
@@ -14,6 +14,8 @@ if [ -n "$TESTS" ]; then TR=$(/venv/bin/python -m pytest -q -p no:cacheprovider 
 echo "demo clean=$CLEAN patched=$PATCHED tests: $TR"
 cd /verif
 cp evidence/$P.json /tmp/seed_$P.bak 2>/dev/null
-TANGERMEME_REPO=$D NUMBA_CACHE_DIR=$D/.nb ./check $P --tier ${TIER:-quick} 2>&1 | grep -E "VIOLATION|KNOWN|HARNESS|^OK|^FAIL" | cut -c1-300 | head -6
+TANGERMEME_REPO=$D NUMBA_CACHE_DIR=$D/.nb ./check $P --tier ${TIER:-quick} > /tmp/neg_$P.log 2>&1; RC=$?
+grep -E "VIOLATION|KNOWN|HARNESS|^OK|^FAIL" /tmp/neg_$P.log | cut -c1-400 | head -6
+echo "check exit=$RC"
 cp /tmp/seed_$P.bak evidence/$P.json 2>/dev/null
 git -C /repo worktree remove --force $D
